@@ -27,7 +27,7 @@ LEVEL_TEXT = ('History and schedule properties have no fixed expected value; eve
               'every schedule up to the pre-emption bound is compared with a fresh-world / solo run of the same operation on the real code.')
 
 BUDGETS = {'level': 900, 'histories': 600, 'expand': 600, 'monitor': 600, 'free_running': 900, 'chain': 900}
-CFG1 = {'max_calc_step_size_feet': 0.25, 'cGravityConstant': -30.0, 'cMaximumDrop': -500.0}
+CFG1 = {'max_calc_step_size_feet': 0.25, 'cGravityConstant': -30.0, 'cMaximumDrop': -500.0, 'cMaxIterations': 2}     # K1 zeroes A, D, F, G; B and C end in ZeroFindingError; H in RangeError
 SHOTS = 'ABCDEFGH'
 
 
